@@ -417,6 +417,20 @@ def wire_rules(ctx, R, verbs=True):
 
 def w1(ctx, R):
     fmt, snd = R.formatter, R.sender
+    # the bytes the sender writes, evaluated first: when it was followed for every flag setting, the rules below that describe ONE way
+    # of assembling the line (nothing between formatter and write, the argument list used nowhere else) are recorded, not reported;
+    # who may write to the socket, CRLF termination and the write buffer's lifetime are reported as ever
+    st9 = w9(ctx, R, fmt, snd)
+    prev = ctx.demote(("W1",), "the evaluation of the sender (W9)", keep_keys=("foreign-send", "no-crlf", "stale-write-buffer")) if st9 == "ok" else None
+    try:
+        return _w1(ctx, R)
+    finally:
+        if prev is not None:
+            ctx.restore(prev)
+
+
+def _w1(ctx, R):
+    fmt, snd = R.formatter, R.sender
     # ---- W1 ----------------------------------------------------------------------
     ctx.rule("W1", "who-may-call sendall/send on the socket = the command sender")
     ctl = ast.parse("def f(self):\n    self.sock.sendall(b'x')\n").body[0]
@@ -556,7 +570,6 @@ def w1(ctx, R):
                 continue
             ctx.violation("W1", snd, "args-bypass-formatter", "the argument list is used outside the formatter call: %s" % norm(stmt_of(nnode))[:80],
                           node=nnode)
-    w9(ctx, R, fmt, snd)
     return args_param
 
 
@@ -618,12 +631,73 @@ def w9(ctx, R, fmt=None, snd=None, rule="W9"):
                     ctx.violation(rule, snd, "wire-bytes", "with args=%r, extra lines=%r the sender writes %r on some path; the command is %r"
                                   % (args, extra, got, want), node=snd.node,
                                   witness="a command whose arguments the server never receives as the caller passed them")
-                    return
+                    return "bad"
+    # the caller's list is an object: run again with a shared (mutable) list and every concrete setting of the boolean parameters and
+    # of the instance's debug flag, so that an edit made through an alias of the list (`shown = args; shown[1] = ...`) is seen
+    if checked >= 3:
+        import itertools
+        bools = [q for q in snd.params[3:] if q != pextra and isinstance(snd.defaults().get(q), ast.Constant) and isinstance(snd.defaults()[q].value, bool)]
+        flags = sorted({n_.attr for n_ in walk_no_nested(snd.node) if isinstance(n_, ast.Attribute) and isinstance(n_.value, ast.Name)
+                        and n_.value.id == snd.params[0] and "debug" in n_.attr.lower() and isinstance(n_.ctx, ast.Load)})
+        old_heap = fd.State.heap
+        fd.State.heap = True
+        try:
+            verbs_ = ["VERB", "AUTHENTICATE", "PUTSCRIPT", "STARTTLS", "LOGOUT"]
+            for verb_, combo in itertools.product(verbs_, list(itertools.product((False, True), repeat=len(bools) + len(flags)))):
+                shared = fd.MList([b"a", b"b", b"c"])
+
+                def oracle2(interp, e, name, recv, a, kw, st):
+                    if name == "self." + fmt.name or (name and mangle(R.cls.name, name[5:]) == fmt.name):
+                        v = a[0] if a else None
+                        if isinstance(v, fd.Const) and isinstance(v.v, (list, tuple)):
+                            return [(fd.Const([b"<" + x + b">" if isinstance(x, bytes) else b"<?>" for x in v.v]), None)]
+                        return None
+                    if name in send_names and a:
+                        return [(fd.Const(None), ("send", a[0]))]
+                    if name == "isinstance" and len(a) == 2 and isinstance(a[0], fd.Const) and isinstance(a[0].v, (bytes, str, int)) \
+                            and isinstance(e.args[1], ast.Name) and ctx.program.cls(e.args[1].id) is not None:
+                        return [(fd.Const(False), None)]  # a plain bytes / str / int constant is no instance of a class of the package
+                    if name and name.startswith("self.") and name[5:] in R.methods:
+                        return [(fd.Unknown(name), None)]
+                    return None
+                it = fd.Interp(snd.node, R.cls.name, oracle2, resolve=module_resolver(ctx.program, R.module))
+                env = {pname: fd.Const(verb_), pargs: fd.Const(shared)}
+                if pextra:
+                    env[pextra] = fd.Const(None)
+                for q, v_ in zip(bools, combo):
+                    env[q] = fd.Const(v_)
+                for a_, v_ in zip(flags, combo[len(bools):]):
+                    env["%s.%s" % (snd.params[0], a_)] = fd.Const(v_)
+                for q in snd.params[1:]:
+                    env.setdefault(q, fd.Unknown(q))
+                try:
+                    paths = [p for p in it.run(env) if p.kind == "return"]
+                except fd.TooManyPaths:
+                    continue
+                # shared objects are only meaningful on a single path - or when every path wrote the same bytes
+                sents = []
+                for p_ in paths:
+                    sent = [x[1] for x in p_.events if x[0] == "send"]
+                    sents.append(b"".join(bytes(x.v) for x in sent) if all(isinstance(x, fd.Const) and isinstance(x.v, (bytes, bytearray)) for x in sent) else None)
+                if not sents or None in sents or len(set(sents)) != 1:
+                    continue
+                got = sents[0]
+                want = verb_.encode() + b" <a> <b> <c>\r\n"
+                checked += 1
+                if got != want or list(shared) != [b"a", b"b", b"c"]:
+                    setting = ", ".join("%s=%s" % kv for kv in zip(bools + flags, combo))
+                    ctx.violation(rule, snd, "wire-bytes-shared-list", "for %s with the argument list [b'a', b'b', b'c'] (%s) the sender writes %r and leaves the "
+                                  "caller's list as %r; the command is %r and the list is the caller's" % (verb_, setting, got, list(shared), want),
+                                  node=snd.node, witness="an argument is replaced in the caller's list before it is formatted")
+                    return "bad"
+        finally:
+            fd.State.heap = old_heap
     if checked < 3:
         ctx.notice(rule, "%s: not evaluable (%s); the syntactic W1 rules decide" % (snd.qualname, undecided or "no complete path"))
-    else:
-        ctx.holds(rule, "%s: %d (arguments, extra lines, flag settings) paths write exactly verb + formatted arguments + CRLF (+ lines)%s"
-                  % (snd.qualname, checked, "; undecided paths: " + undecided if undecided else ""))
+        return None
+    ctx.holds(rule, "%s: %d (arguments, extra lines, flag settings) paths write exactly verb + formatted arguments + CRLF (+ lines)%s"
+              % (snd.qualname, checked, "; undecided paths: " + undecided if undecided else ""))
+    return "ok" if not undecided else None
 
 
 def resolve_helper(ctx, func, call):
